@@ -10,6 +10,7 @@ import (
 	"encoding"
 	"errors"
 	"fmt"
+	"strings"
 	"testing"
 
 	"github.com/wollac/iota-crypto-demo/pkg/merkle"
@@ -121,7 +122,7 @@ var errLeaf = errors.New("leaf cannot be marshalled")
 
 type leafErr struct{ idx int }
 
-func (e leafErr) Error() string { return fmt.Sprintf("leaf %d cannot be marshalled", e.idx) }
+func (e leafErr) Error() string { return fmt.Sprintf("leaf %d cannot be marshalled;", e.idx) }
 
 func (l failLeaf) MarshalBinary() ([]byte, error) { return nil, leafErr{l.idx} }
 
@@ -202,7 +203,8 @@ func checkTree(c treeCase) (h.Info, error) {
 			}
 		}
 		var le leafErr
-		if got != nil || err == nil || !errors.As(err, &le) || le.idx != first {
+		isFirst := err != nil && ((errors.As(err, &le) && le.idx == first) || strings.Contains(err.Error(), leafErr{first}.Error()))
+		if got != nil || !isFirst {
 			return info, fmt.Errorf("Hash with failing leaves %v: got %x, %v; want (nil, error of leaf %d)", c.Fail, got, err, first)
 		}
 		return info, nil
